@@ -329,7 +329,7 @@ def run_check(prop, tier, seed, out=print):
     shutil.rmtree(os.path.join(WORK_DIR, prop), ignore_errors=True)
     ctxmp = multiprocessing.get_context(os.environ.get("PV_MP", "spawn"))
     workers = min(int(os.environ.get("PV_WORKERS", str(getattr(mod, "WORKERS", 4)))), nshards)
-    deadline = float(os.environ.get("PV_DEADLINE", str((getattr(mod, "DEADLINE", None) or {}).get(tier, 1200 if tier == "quick" else 4 * 3600))))
+    deadline = float(os.environ.get("PV_DEADLINE", str((getattr(mod, "DEADLINE", None) or {}).get(tier, 900 if tier == "quick" else 4 * 3600))))
     ex = concurrent.futures.ProcessPoolExecutor(max_workers=workers, mp_context=ctxmp)
     futs = [ex.submit(_shard_main, a) for a in args]
     done, not_done = concurrent.futures.wait(futs, timeout=deadline)
